@@ -83,7 +83,7 @@ Fixpoint all_writes (c : cfg) (s : ost) (ops : list (@op V)) : list write :=
   | [] => []
   | o :: rest =>
       let '(s', r) := step vdef score_fn populate hook_end hook_end_abort hook_reload reissue c s o in
-      writes_of s o s' r ++ all_writes c s' rest
+      writes_of s o s' r ++ match r with RAbort => [] | _ => all_writes c s' rest end   (* the exception ends search() *)
   end.
 (* BaseTuner.search saves once before the loop *)
 Definition search_writes (c : cfg) (a0 : A) (ops : list (@op V)) : list write :=
